@@ -24,7 +24,7 @@ CHECKS = {
                 text="Every stage output is judged by `wf`; Scfg.C04.wf_iff proves wf H = true ↔ WF H (six quantified clauses).", ref="§7 C04"),
     "C05": dict(cat="translation_validation", tech="Lean 4: conserved decider with soundness theorem (conserved_sound) on real outputs",
                 text="Every stage output is compared with the input by `conserved`; Scfg.C05.conserved_sound unfolds it into the property.", ref="§7 C05"),
-    "C06": dict(cat="translation_validation", tech="Lean 4: simulation with consuming latches ⇒ no control-variable error on any path (no_ctl_error) + tablesOK",
+    "C06": dict(cat="translation_validation", tech="Lean 4: verified closed-set check (invOK_sound) over the reachable configurations with consuming latches ⇒ no control-variable error on any path (no_ctl_error) + tablesOK",
                 text="Every stage output is checked by `ctlOK`; Scfg.C06.no_ctl_error proves that then no path of any length reads an unset or out-of-range "
                      "control variable (latches consume their variable), tables_sound gives the static table property.", ref="§7 C06"),
     "C14": dict(cat="proof", tech="Lean 4: a-priori theorems about the model of the rewiring loop + exact-dump correspondence of the edit-primitive model with the code + Lean arc-specification decider on real before/after pairs",
